@@ -82,7 +82,14 @@ def r11_shared(run, tree):
     qs.check_array_norm_identity(run, tree)
 
 
-RULES = [r_layer_views, r1, r2, r3, r4_r5, r6, r7, r9, r11_shared]
+def r_wrappers_pure(run, tree):
+    from . import c19
+    run.rule("C03.R12", "drawing the result does not change it: no drawing wrapper of plot/wrappers.py stores into, masks in place or otherwise mutates the arrays it is handed "
+             "(they are the arrays of the returned Plot.layers)", "D3 provenance from every wrapper with (x, y, z) parameters", "", floor=6)
+    c19.check_wrappers_pure(run, tree)
+
+
+RULES = [r_wrappers_pure, r_layer_views, r1, r2, r3, r4_r5, r6, r7, r9, r11_shared]
 
 
 def t_map_space(run, tree):
